@@ -61,6 +61,17 @@ CHECKS = {
             'types x boundary values; three-valued Holds (T/F/raises, Python short-circuit order) in PaneSem decides',
             'Exhaustive within the universe: 15 base conditions, not/and/or combinations, nested expressions with equal names, '
             'values at threshold-1/2, threshold, threshold+1/2, lengths 0..3, inf/nan/-0.0, raising predicates.', 'section 7 C13'),
+    'C07': ('TLC-enumerated rejected cases; the recorded ConvertError.tree (and the stand-alone trees of the structural '
+            'children) validated by the TLC trace spec against the tree algebra TreeBad of PaneErrors.tla',
+            'For every rejected case of the scalar/cls/tagged/union/cond universes TLC checks: node kinds mirror the type, '
+            'product children keyed by exactly the elements the semantics rejects on their own, missing/extra sets, one sum '
+            'child per (flattened) member in order, tagged unions report the chosen variant only, every leaf records the '
+            'offending sub-value, children equal the stand-alone trees.', 'section 7 C07'),
+    'C08': ('TLC-enumerated rejected cases; str(error) rendered; Python reports only substring offsets, TLC computes the '
+            'ordered obligations Needs(tree) and decides completeness by greedy matching',
+            'Rendering never raises, is stable (twice, and for an independent second failure), and contains in nesting order '
+            'every path component, leaf expectation, offending value, cause message, missing/unexpected/duplicate field.',
+            'section 7 C08'),
 }
 
 NOT_YET = 'check not built yet (work in progress; see DESIGN.md section 12 build order)'
